@@ -117,10 +117,10 @@ func (l *Listener) Reset(opts ...Option) {
 		opts[i](&l.options)
 	}
 
-	if prevChannelBuffer != l.options.channelBuffer {
+	if l.poolc == nil || prevChannelBuffer != l.options.channelBuffer {
 		prevPoolc := l.poolc
-		l.poolc = make(chan []proto.Field, l.options.channelBuffer)
-		for i := uint(0); i < l.options.channelBuffer; i++ {
+		l.poolc = make(chan []proto.Field, l.options.channelBuffer+1)
+		for i := uint(0); i < l.options.channelBuffer+1; i++ {
 			select {
 			case v := <-prevPoolc:
 				l.poolc <- v // fill with previously allocated slice.
@@ -185,7 +185,7 @@ func (l *Listener) Close() {
 
 	// PERF: In case the Listener might be reused later, this ensure fields' pool does not reference any pointer
 	// such as proto.FieldBase created for unknown fields or field.Value that reference any pointer to a slice.
-	for i := uint(0); i < l.options.channelBuffer; i++ {
+	for i := uint(0); i < l.options.channelBuffer+1; i++ {
 		fields := <-l.poolc
 		clear(fields[:cap(fields):cap(fields)])
 		l.poolc <- fields
